@@ -20,6 +20,9 @@ DEST = ['absent', 'file', 'emptydir', 'dir', 'link_file', 'link_dir', 'dangling'
 PAY = ['f', 'd', 'l']
 
 
+RULE += ' Since round 8: --overwrite where nothing can be restored (payload missing / move refused: the destination is replaced by the restored entry or not at all) and several versions of one location selected with --overwrite (each replaces the one before, the last stays).'
+
+
 def dest_nodes(kind, path):
     if kind == 'absent':
         return []
@@ -152,6 +155,13 @@ def same_destination(rng):
                'steps': [{'cmd': 'restore', 'argv': ['/'], 'stdin': reply + '\n'}]}
         scns.append(scn)
         metas.append({'twice': True, 'ow': False, 'td': td, 'dest': dest, 'names': names, 'reply': reply, 'where': where, 'pks': pks})
+        if all(pk == 'f' for pk in pks) and len(set(order_of(reply))) == len(order_of(reply)):
+            # the same with --overwrite: every selected version replaces the one restored before it, the last one stays
+            import copy
+            s2 = copy.deepcopy(scn)
+            s2['steps'][0]['argv'] = ['/', '--overwrite']
+            scns.append(s2)
+            metas.append(dict(metas[-1], ow=True))
     return scns, metas
 
 
@@ -272,6 +282,12 @@ def judge_same(run, scn, meta, res, section='same-destination'):
         return                                    # '1-0' is an empty range: nothing selected
     later = [meta['names'][i] for i in sel[1:]]
     dsub = sandbox.subtree(after, meta['dest'])
+    if meta.get('ow'):
+        last = meta['names'][sel[-1]]
+        if engine.strip_mtime(dsub) != engine.strip_mtime(eb[last]['payload']) or o['exit'] != 0 or any(meta['names'][i] in ea for i in sel):
+            run.fail('oracle', '--overwrite with several versions of one location selected: every selected version must be restored in turn '
+                     '(each replacing the one before), the last one stays, exit 0', case, key='overwrite-same-destination', section=section)
+        return
     if engine.strip_mtime(dsub) != engine.strip_mtime(eb[first]['payload']):
         run.fail('oracle', 'the destination is not the entry restored first: a later entry of the same reply replaced it', case,
                  key='same-destination-clobbered', section=section)
@@ -285,7 +301,46 @@ def judge_same(run, scn, meta, res, section='same-destination'):
                      section=section)
 
 
+def unrestorable(rng):
+    """--overwrite, something at the destination, and a restore that cannot succeed (the payload is missing - what an interrupted earlier
+    restore leaves -, or the move is refused): what is at the destination is replaced BY THE RESTORED ENTRY or not at all"""
+    scns, metas = [], []
+    for dk, why in itertools.product(('file', 'dir', 'link_file', 'dangling'), ('no-payload', 'move-refused')):
+        home = '/home/u'
+        td, dest = home + '/.local/share/Trash', home + '/work/thing'
+        nodes = scen.canary() + [['d', home, 0o755], ['d', home + '/work', 0o755]] + dest_nodes(dk, dest)
+        nodes += scen.entry(td, 'thing', dest, '2024-01-01T00:00:00', 'f', data='trashed copy')
+        if why == 'no-payload':
+            nodes = [n for n in nodes if n[1] != td + '/files/thing']
+            nodes.append(['d', td + '/files', 0o700])
+        step = {'cmd': 'restore', 'argv': ['/', '--overwrite'], 'stdin': '0\n'}
+        if why == 'move-refused':
+            step['plan'] = {'faults': {'move': {'errno': 13}}}
+        scns.append({'tree': nodes, 'mounts': [], 'cwd': '/', 'uid': 1000, 'env': {'HOME': home, 'TRASH_VOLUMES': '/'}, 'steps': [step]})
+        metas.append({'unrestorable': True, 'ow': True, 'dk': dk, 'why': why, 'dest': dest, 'td': td})
+    return scns, metas
+
+
+def judge_unrestorable(run, scn, meta, res, section='unrestorable'):
+    before, o = res['before'], res['steps'][0]
+    after = o['after']
+    run.count(section)
+    case = {'scenario': scn, 'meta': meta, 'exit': o['exit'], 'stderr': o['stderr'][-400:]}
+    db, da = sandbox.subtree(before, meta['dest']), sandbox.subtree(after, meta['dest'])
+    restored = engine.entries_of(after, meta['td']).get('thing') is None
+    if not restored and engine.strip_mtime(db) != engine.strip_mtime(da):
+        run.fail('oracle', '--overwrite: nothing was restored (%s), yet what was at the destination (%s) is gone or altered' % (meta['why'], meta['dk']),
+                 case, key='overwrite-destroyed-without-restoring', section=section)
+    run.nontriv(('unrestorable', meta['dk'], meta['why'], o['exit'] != 0))
+
+
 def run(run, thorough):
+    s5, m5 = unrestorable(run.rng)
+    for scn, meta, res in zip(s5, m5, sandbox.execute_many(s5)):
+        if res.get('harness_error') or not res.get('steps'):
+            run.fail('harness', 'sandbox failure', {'error': res.get('harness_error'), 'scenario': scn})
+            continue
+        judge_unrestorable(run, scn, meta, res)
     s3, m3 = foreign_paths(run.rng)
     out3 = engine.run_all(run, 'restore-foreign', s3)
     by3 = {id(s): m for s, m in zip(s3, m3)}
@@ -302,7 +357,7 @@ def run(run, thorough):
     jobs2 = []
     for scn, res in out2:
         judge_same(run, scn, by2[id(scn)], res)
-        jobs2.append(('refuse', 'b0', res['steps'][0], {'scenario': scn}))
+        jobs2.append(('refuse', 'b1' if by2[id(scn)].get('ow') else 'b0', res['steps'][0], {'scenario': scn}))
     engine.run_monitors(run, 'refuse-monitor-same', jobs2, 'the refuse monitor (Coq, C06) rejects the implementation trace: a move onto a '
                         'destination that was not probed absent', 'move-onto-existing')
     scns, metas = table(run.rng, thorough)
@@ -330,6 +385,9 @@ def replay(run, payload):
     print('trash-restore', scn['steps'][0]['argv'], repr(scn['steps'][0].get('stdin')), 'exit', o['exit'])
     print(' stdout:', esc(o['stdout'][:400]))
     print(' stderr:', esc(o['stderr'][:400]))
+    if meta and meta.get('unrestorable'):
+        judge_unrestorable(run, scn, meta, res, 'replay')
+        return
     if meta and meta.get('nested'):
         judge_nested(run, scn, meta, res)
     elif meta and meta.get('foreign'):
